@@ -43,6 +43,17 @@ def run_one(meta_path):
             r = subprocess.run([os.path.join(VERIF, "bin", "govc"), "check", "--property", meta["property"], "--tier", "quick"],
                                capture_output=True, text=True, env=env)
             viol = [l for l in r.stdout.splitlines() if l.startswith("VIOLATION")]
+        # keep what an engine error said (the scratch output directory is removed afterwards)
+        extra = ""
+        for l in viol:
+            if "obligation=engine" in l or "undecided" in l:
+                try:
+                    rp = l.split("replay=")[1].split()[0]
+                    extra += " [" + "; ".join(json.load(open(rp)).get("errors", [])[:2])[:300] + "]"
+                except Exception:
+                    pass
+        if extra:
+            viol = [v + extra if "obligation=engine" in v else v for v in viol]
         if meta.get("kind") == "known-brittle":
             # a behaviour-preserving edit that is known to alarm (DESIGN.md §10.7): it must
             # alarm only in the documented way, so that the limitation does not grow silently
